@@ -536,6 +536,11 @@ def r_flow_parse(ctx) -> RuleResult:
                 continue        # keyed by the element itself
             if isinstance(s_, ast.If) and all(isinstance(z, (ast.Raise, ast.Continue, ast.Pass)) for z in s_.body) and not s_.orelse:
                 continue
+            if isinstance(s_, ast.Assign) and len(s_.targets) == 1 and all(isinstance(z, (ast.Name, ast.Tuple, ast.List, ast.Store)) for z in ast.walk(s_.targets[0])) \
+                    and names_in(s_.value) <= var_names | {"int", "min", "max", "sorted", "tuple"}:
+                # the element taken apart under local names (`a, b = bond`): nothing is built
+                var_names = var_names | {z.id for z in ast.walk(s_.targets[0]) if isinstance(z, ast.Name)}
+                continue
             if isinstance(s_, ast.For) and isinstance(s_.iter, ast.Name) and s_.iter.id in var_names and isinstance(s_.target, ast.Name):
                 sub = loop_is_setlike(s_, {s_.target.id})
                 if sub is not True:
